@@ -1,6 +1,9 @@
 import GojaModel.C01.Model
 import GojaModel.Generated.C01_StackEffects
 import GojaModel.Generated.C01_PanicKinds
+import GojaModel.Generated.C01_Scope
+import GojaModel.Generated.C01_Stmt
+import GojaModel.C01.Scope
 /-!
   C01 tie: the facts regenerated from /repo on this run (Generated/C01_*.lean) against what the model assumes.
   A failing theorem here names the instruction / classifier whose Go source changed.
@@ -60,7 +63,10 @@ def modelOps : List (Instr × Eff) := [
   (op21 "_op_lt", Gen.eff_UopUlt), (op21 "_op_gt", Gen.eff_UopUgt), (op21 "_op_lte", Gen.eff_UopUlte),
   (op21 "_op_gte", Gen.eff_UopUgte), (op21 "_op_eq", Gen.eff_UopUeq), (op21 "_op_neq", Gen.eff_UopUneq),
   (op21 "_op_strict_eq", Gen.eff_UopUstrictUeq), (op21 "_op_strict_neq", Gen.eff_UopUstrictUneq),
-  (op21 "_op_instanceof", Gen.eff_UopUinstanceof), (op21 "_op_in", Gen.eff_UopUin)]
+  (op21 "_op_instanceof", Gen.eff_UopUinstanceof), (op21 "_op_in", Gen.eff_UopUin),
+  -- statements
+  (iSaveResult, Gen.eff_UsaveResult), (iClearResult, Gen.eff_UclearResult), (iInitValueP, Gen.eff_UinitValueP),
+  (iInitStackP, Gen.eff_initStackP), (iInitStackP, Gen.eff_initStack1P), (iInitStackP, Gen.eff_initStashP)]
 
 /-- TIE 1: the operand-stack effect of every fixed-effect instruction the emitter model uses equals the effect
 regenerated from its `exec` method in vm.go. -/
@@ -97,6 +103,60 @@ theorem emitSetP_pops : Gen.setPPopsSloppyConst = true := by decide
 /-- TIE 4c: `enterFinally` disarms both the finally and the catch position of the frame (fix 379f30d) — what the
 machine's `enterFinally` step transcribes. -/
 theorem enterFinally_clears : Gen.enterFinallyClears = ["catchPos", "finallyPos"] := by decide
+
+/-- TIE 4d: `scope.hasStash` as it is in compiler.go (translated statement by statement by the extractor) is the decision
+function the scope model reasons about — for all 512 flag combinations. -/
+theorem hasStash_decision : ∀ a b c d e f g h i : Bool,
+    Gen.hasStashGen a b c d e f g h i = Scope.hasStashD a b c d e f g h i := by decide
+
+/-- TIE 4e: the level loops of finaliseVarAlloc count exactly `hasStash()`, and the run-time side creates stashes under the
+conditions `Scope.createsStash` transcribes (enterBlock, enterFuncBody, function entry selection, class initialiser,
+updateEnterBlock's stash size). -/
+theorem scope_runtime_side :
+    Gen.levelLoopConds = ["sc.hasStash()", "sc.hasStash()"] ∧
+    Gen.enterBlockStashCond = "e.stashSize>0" ∧
+    Gen.enterFuncBodyStashCond = "e.stashSize>0||e.extensible||e.dynLookup" ∧
+    Gen.funcEnterStashCond = "stashSize>0||s.argsInStash" ∧
+    Gen.clsInitEnterStashCond = "stashSize>0" ∧
+    Gen.updateEnterBlockShape = "dynLookup:len(scope.bindings);else:count(b.inStash)" := by decide
+
+/-- TIE 6: the statement compiler (compiler_stmt.go) as the emitter model `emitS`/`emitList` transcribes it: for each
+method, its decision structure (conditions, loops, gotos) with, in source order, the calls that emit code or compile a
+sub-statement — regenerated on every run; bookkeeping statements are not part of the skeleton.  A failing conjunct names
+the method whose emission logic changed (then `emitS` and `corr:emit-statements-bytecode-exact` must follow). -/
+theorem stmt_skel_compileExpressionStatement : Gen.skel_compileExpressionStatement =
+    "c.emitExpr(c.compileExpression(v.Expression),needResult);if(needResult){c.emit(saveResult);}" := rfl
+theorem stmt_skel_compileEmptyStatement : Gen.skel_compileEmptyStatement =
+    "if(needResult){c.emit(clearResult);}" := rfl
+theorem stmt_skel_compileIfStatement : Gen.skel_compileIfStatement =
+    "if(needResult){c.emit(clearResult);}if(test.constant()){if(ex!=nil){c.emitThrow(ex.val);return;}if(r.ToBoolean()){c.compileIfBody(v.Consequent,needResult);if(v.Alternate!=nil){c.compileIfBodyDummy(v.Alternate);}}else{c.compileIfBodyDummy(v.Consequent);if(v.Alternate!=nil){c.compileIfBody(v.Alternate,needResult);}else{if(needResult){c.emit(clearResult);}}}return;}test.emitGetter(true);c.emit(nil);c.compileIfBody(v.Consequent,needResult);if(v.Alternate!=nil){c.emit(nil);patch jneP(len(c.p.code)-jmp);c.compileIfBody(v.Alternate,needResult);patch jump(len(c.p.code)-jmp1);}else{if(needResult){c.emit(jump(2));patch jneP(len(c.p.code)-jmp);c.emit(clearResult);}else{patch jneP(len(c.p.code)-jmp);}}" := rfl
+theorem stmt_skel_compileIfBody : Gen.skel_compileIfBody =
+    "if(!c.scope.strict){if(ok&&!s.Function.Async&&!s.Function.Generator){c.compileFunction(s);if(needResult){c.emit(clearResult);}return;}}c.compileStatement(s,needResult);" := rfl
+theorem stmt_skel_compileLabeledWhileStatement : Gen.skel_compileLabeledWhileStatement =
+    "if(needResult){c.emit(clearResult);}set testTrue=false;if(expr.constant()){if(ex==nil){if(t.ToBoolean()){set testTrue=true;}else{c.compileStatementDummy(v.Body);goto end;}}else{c.emitThrow(ex.val);goto end;}}else{expr.emitGetter(true);c.emit(nil);}if(needResult){c.emit(clearResult);}c.compileStatement(v.Body,needResult);c.emit(jump(start-len(c.p.code)));if(!testTrue){patch jneP(len(c.p.code)-j);}end:" := rfl
+theorem stmt_skel_compileLabeledDoWhileStatement : Gen.skel_compileLabeledDoWhileStatement =
+    "if(needResult){c.emit(clearResult);}c.compileStatement(v.Body,needResult);c.emitExpr(c.compileExpression(v.Test),true);c.emit(jeqP(start-len(c.p.code)));" := rfl
+theorem stmt_skel_compileLabeledForStatement : Gen.skel_compileLabeledForStatement =
+    "typeswitch{case(*ast.ForLoopInitializerLexicalDecl){c.compileForHeadLexDecl(&init.LexicalDeclaration,needResult);}case(*ast.ForLoopInitializerVarDeclList){range(init.List){c.compileVarBinding(expr);}}case(*ast.ForLoopInitializerExpression){c.compileExpression(init.Expression).emitGetter(false);}}if(needResult){c.emit(clearResult);}if(enterIterBlock!=nil){c.emit(jump(1));}set testConst=false;if(v.Test!=nil){if(expr.constant()){if(ex==nil){if(r.ToBoolean()){set testConst=true;}else{c.enterDummyMode();c.compileStatement(v.Body,false);if(v.Update!=nil){c.compileExpression(v.Update).emitGetter(false);}leave();goto end;}}else{c.emitThrow(ex.val);goto end;}}else{expr.emitGetter(true);c.emit(nil);}}if(needResult){c.emit(clearResult);}c.compileStatement(v.Body,needResult);if(enterIterBlock!=nil){c.emit(jump(1));}if(v.Update!=nil){c.compileExpression(v.Update).emitGetter(false);}if(enterIterBlock!=nil){if(c.scope.needStash||c.scope.isDynamic()){patch <*ast.CompositeLit>;patch <*ast.CompositeLit>;}}c.emit(jump(start-len(c.p.code)));if(v.Test!=nil){if(!testConst){patch jneP(len(c.p.code)-j);}}end:" := rfl
+theorem stmt_skel_compileReturnStatement : Gen.skel_compileReturnStatement =
+    "if(s!=nil&&s.funcType==funcClsInit){c.throwSyntaxError(int(v.Return)-1,\"Illegal return statement\");}if(v.Argument!=nil){c.emitExpr(c.compileExpression(v.Argument),true);}else{c.emit(loadUndef);}for{switch{case(blockTry){c.emit(saveResult,<*ast.CompositeLit>,loadResult);}case(blockLoopEnum){c.emit(enumPopClose);}}}c.emit(ret);" := rfl
+theorem stmt_skel_compileThrowStatement : Gen.skel_compileThrowStatement =
+    "c.compileExpression(v.Argument).emitGetter(true);c.emit(throw);" := rfl
+theorem stmt_skel_emitVarAssign : Gen.skel_emitVarAssign =
+    "if(init!=nil){if(noDyn){c.emitNamedOrConst(init,name);b.emitInitP();}else{c.emitVarRef(name,offset,b);c.emitNamedOrConst(init,name);c.emit(initValueP);}}" := rfl
+theorem stmt_skel_compileStatements : Gen.skel_compileStatements =
+    "if(blk!=nil){set needResult=blk.needResult;}if(needResult){c.compileStatementsNeedResult(list,lastProducingIdx);return;}range(list){if(ok){continue;}c.compileStatement(st,false);}" := rfl
+theorem stmt_skel_compileStatementsNeedResult : Gen.skel_compileStatementsNeedResult =
+    "if(lastProducingIdx>=0){range(<*ast.SliceExpr>){if(ok){continue;}c.compileStatement(st,containsBranch(st));}c.compileStatement(list[lastProducingIdx],true);}range(<*ast.SliceExpr>){if(ok){continue;}c.compileStatement(st,false);if(leave==nil){if(ok){c.enterDummyMode();}}}" := rfl
+theorem stmt_skel_scanStatements : Gen.skel_scanStatements =
+    "set lastProducingIdx=-1;range(list){if(bs!=nil){if(blk!=nil){set breakingBlock=blk;}break;}if(!c.isEmptyResult(st)){set lastProducingIdx=i;}}return;" := rfl
+
+/-- TIE 6b: which statements have an empty result (`isEmptyResult`, compiler_stmt.go:881): the case list behind
+`Stmt.emptyResult`, and "everything else produces a value" (no default clause, final `return false`). -/
+theorem isEmptyResult_cases :
+    Gen.isEmptyResultCases = ["*ast.EmptyStatement", "*ast.VariableStatement", "*ast.LexicalDeclaration",
+      "*ast.FunctionDeclaration", "*ast.ClassDeclaration", "*ast.BranchStatement", "*ast.DebuggerStatement",
+      "*ast.LabelledStatement", "*ast.BlockStatement"] ∧ Gen.isEmptyResultHasDefault = false := by decide
 
 /-- TIE 5: the classifier's case lists. -/
 theorem exceptionFromValue_cases :
